@@ -400,6 +400,94 @@ class OneListObject(Family):
         return 'ok', True, steps
 
 
+class MutableTxsEditedInPlace(Family):
+    """the caller's list holds MUTABLE transactions; between two constructions one of them is looked at (txid, hash,
+    weight, serialisation - or nothing) and then edited in place (lock time, output value, input sequence, an appended
+    output, a witness stack filled or emptied): every block, tree, root and weight built afterwards is that of the
+    transactions' CURRENT field values"""
+    name = 'mutable_transactions_edited_in_place'
+    engine = 'E2'
+    nontrivial_rule = 'every case (one edit between two constructions)'
+
+    LOOKS = ('none', 'txid', 'hash', 'weight', 'serialize', 'block')
+    EDITS = ('locktime', 'value', 'seq', 'add_out', 'wit_fill', 'wit_clear', 'prevout')
+
+    def shards(self, tier):
+        return list(self.LOOKS)
+
+    def cases(self, shard, tier):
+        for n in (1, 2, 3, 5):
+            for pos in sorted({0, n - 1, n // 2}):
+                for edit in self.EDITS:
+                    for wp in ('none', 'all'):
+                        yield (shard, n, pos, edit, wp)
+
+    def check(self, case):
+        import copy
+        from bitcoin.core import CBlock, NoWitnessData, CMutableTxOut, CTxInWitness, CTxWitness
+        from bitcoin.core.script import CScript, CScriptWitness
+        look, n, pos, edit, wp = case
+        models = [copy.deepcopy(coinbase(wp == 'all'))] + [copy.deepcopy(pool_tx(i, wp == 'all')) for i in range(1, n)]
+        txs = [C.lib_tx(m, mutable=True) for m in models]
+
+        def probe(when):
+            txids = [W.txid(m) for m in models]
+            root = W.merkle_root(txids)
+            blk = CBlock(nVersion=4, hashPrevBlock=b'\x11' * 32, nTime=1, nBits=0x207fffff, nNonce=0, vtx=txs)
+            if blk.hashMerkleRoot != root or list(blk.vMerkleTree) != W.merkle_tree(txids) or blk.calc_merkle_root() != root:
+                raise Viol('block built from mutable transactions %s: merkle root / tree are not those of the current field values' % when, root.hex(), bytes(blk.hashMerkleRoot).hex())
+            if list(CBlock.build_merkle_tree_from_txs(txs)) != W.merkle_tree(txids):
+                raise Viol('build_merkle_tree_from_txs on mutable transactions %s' % when, None, None)
+            wl = [b'\x00' * 32] + [W.wtxid(m) for m in models[1:]]
+            anyw = any(W.has_witness(m) for m in models)
+            try:
+                wt = list(CBlock.build_witness_merkle_tree_from_txs(txs))
+            except NoWitnessData:
+                wt = None
+            if (wt is not None) != anyw or (anyw and (wt != W.merkle_tree(wl) or list(blk.vWitnessMerkleTree) != W.merkle_tree(wl) or blk.calc_witness_merkle_root() != W.merkle_root(wl))):
+                raise Viol('witness merkle tree built from mutable transactions %s is not that of the current field values' % when, None, None)
+            sw = 3 * len(W.encode_block(dict(_hdr(root), vtx=models), witness=False)) + len(W.encode_block(dict(_hdr(root), vtx=models)))
+            if blk.GetWeight() != sw:
+                raise Viol('GetWeight() of the block built from mutable transactions %s' % when, sw, blk.GetWeight())
+            for t, m in zip(txs, models):
+                tw = 3 * len(W.encode_tx(m, witness=False)) + len(W.encode_tx(m))
+                if t.calc_weight() != tw:
+                    raise Viol('calc_weight() of a mutable transaction %s' % when, tw, t.calc_weight())
+            return blk
+        t, m = txs[pos], models[pos]
+        if look == 'block':
+            probe('before the edit')
+        elif look == 'txid':
+            t.GetTxid()
+        elif look == 'hash':
+            t.GetHash()
+        elif look == 'weight':
+            t.calc_weight()
+        elif look == 'serialize':
+            t.serialize()
+        if edit == 'locktime':
+            t.nLockTime = m['locktime'] = 77
+        elif edit == 'value':
+            t.vout[0].nValue = m['vout'][0]['value'] = 1
+        elif edit == 'seq':
+            t.vin[0].nSequence = m['vin'][0]['seq'] = 3
+        elif edit == 'prevout':
+            t.vin[0].prevout.n = m['vin'][0]['n'] = (m['vin'][0]['n'] + 1) & 0xffffffff
+        elif edit == 'add_out':
+            t.vout.append(CMutableTxOut(9, CScript(b'\x51')))
+            m['vout'].append({'value': 9, 'script': b'\x51'})
+        elif edit == 'wit_fill':
+            stacks = [[b'\xaa' * 3]] + [[] for _ in m['vin'][1:]]
+            t.wit = CTxWitness(tuple(CTxInWitness(CScriptWitness(tuple(s))) for s in stacks))
+            m['wit'] = stacks
+        else:
+            t.wit = CTxWitness(tuple(CTxInWitness() for _ in m['vin']))
+            m['wit'] = [[] for _ in m['vin']]
+        probe('after in-place edit %s of transaction %d of %d (looked at before: %s)' % (edit, pos, n, look))
+        probe('second construction after the edit')
+        return edit, True
+
+
 class NonCanonicalBlocks(Family):
     """blocks deserialised from accepted non-canonical encodings (a transaction in marker/flag form whose stacks are all
     empty; the transaction count / an input count in a longer CompactSize form): trees, roots and weight are those of the
@@ -481,4 +569,4 @@ class NonCanonicalBlocks(Family):
 
 
 def families(tier):
-    return [Counts(), Patterns(), WrongRoots(), Weights(), BigBlockWeight(), OneListObject(), NonCanonicalBlocks()]
+    return [Counts(), Patterns(), WrongRoots(), Weights(), BigBlockWeight(), OneListObject(), MutableTxsEditedInPlace(), NonCanonicalBlocks()]
